@@ -7,7 +7,7 @@
 From Coq Require Import Reals ZArith List.
 From Coq Require PrimFloat.
 From Celer Require Import Base.Num Base.NumR Base.NumF Base.Stream Base.Vec3
-  C15.Samplers C15.SamplersProofs C20.RotateVariants C20.Optical C20.RotateProofs C20.OpticalProofs C20.OpticalWitness.
+  C15.Samplers C15.SamplersProofs C20.RotateVariants C20.Optical C20.RotateProofs C20.OpticalProofs C20.OpticalWitness C20.DndxProofs C20.SegmentIntegral.
 Import ListNotations.
 Local Open Scope R_scope.
 
@@ -227,3 +227,70 @@ Theorem C20_scint_offload_gauss_count : forall yield res edep u1 u2 s, 10 < yiel
             /\ (0 <= k < 4294967296)%Z /\ k = Int_part (Rmax (x + 1 / 2) 0).
 Proof. exact scint_offload_gauss_count. Qed.
 Print Assumptions C20_scint_offload_gauss_count.
+
+(** ** CerenkovDndxCalculator: what the integral as coded is *)
+
+(** for a material validated by MaterialParams the threshold test is against the
+    largest refractive index, and dN/dx is exactly 0 beyond it *)
+Theorem C20_n_max_is_max : forall es ns : list R, material_ok es ns = true ->
+  Forall (fun n => n <= n_max ns) ns /\ In (n_max ns) ns.
+Proof. exact n_max_is_max. Qed.
+Print Assumptions C20_n_max_is_max.
+
+Theorem C20_dndx_zero_beyond_nmax : forall k es ns charge beta, material_ok es ns = true ->
+  n_max ns < 1 / beta -> dndx (T:=R) k es ns charge beta = 0.
+Proof. exact dndx_zero_beyond_nmax. Qed.
+Print Assumptions C20_dndx_zero_beyond_nmax.
+
+(** CerenkovParams' angle-integral table ends with the trapezoid of 1/n^2 over the grid *)
+Theorem C20_angle_integral_total : forall e0 r0 (es ns : list R), length es = length ns ->
+  length (angle_integral (e0 :: es) (r0 :: ns)) = length (e0 :: es) /\
+  back (angle_integral (e0 :: es) (r0 :: ns)) = trap (fun n => 1 / (n * n)) e0 r0 es ns.
+Proof. exact angle_integral_total. Qed.
+Print Assumptions C20_angle_integral_total.
+
+(** 1/beta below the whole table: the coded integral is exactly the trapezoid rule
+    for 1 - 1/(n^2 beta^2) on the energy grid *)
+Theorem C20_dndx_full_range_is_trapezoid : forall k e0 r0 es ns charge beta,
+  material_ok (e0 :: es) (r0 :: ns) = true -> 1 / beta < r0 ->
+  dndx (T:=R) k (e0 :: es) (r0 :: ns) charge beta =
+  clamp_to_nonneg (charge * charge * k_dndx k *
+    (trap (fun n => 1 - 1 / (n * n) * (1 / beta * (1 / beta))) e0 r0 es ns * k_mev k)).
+Proof. exact dndx_full_range_is_trapezoid. Qed.
+Print Assumptions C20_dndx_full_range_is_trapezoid.
+
+(** relation to the exact integral for piecewise-linear n(E): per segment
+    (e1 - e0)/(n0 n1) <= trapezoid of 1/n^2, equality iff degenerate; hence the
+    coded energy integral never exceeds the exact one *)
+Theorem C20_segment_trapezoid_ge_exact : forall e0 e1 a b : R, e0 <= e1 -> 0 < a -> 0 < b ->
+  (e1 - e0) / (a * b) <= 1 / 2 * (e1 - e0) * (1 / (a * a) + 1 / (b * b)) /\
+  ((e1 - e0) / (a * b) = 1 / 2 * (e1 - e0) * (1 / (a * a) + 1 / (b * b)) -> e0 = e1 \/ a = b).
+Proof. exact segment_trapezoid_ge_exact. Qed.
+Print Assumptions C20_segment_trapezoid_ge_exact.
+
+Theorem C20_dndx_full_range_le_exact : forall e0 r0 (es ns : list R) beta,
+  length es = length ns -> increasing (e0 :: es) = true -> Forall (fun n => 0 < n) (r0 :: ns) ->
+  trap (fun n => 1 - 1 / (n * n) * (1 / beta * (1 / beta))) e0 r0 es ns
+  <= (last es e0 - e0) - exact_pl e0 r0 es ns * (1 / beta * (1 / beta)).
+Proof. exact dndx_full_range_le_exact. Qed.
+Print Assumptions C20_dndx_full_range_le_exact.
+
+(** ** photon-number rules of the offload helpers *)
+Theorem C20_ckv_offload_rule : forall k es ns charge len v0 v1 s,
+  let per_len := dndx (T:=R) k es ns charge (1 / 2 * (v0 + v1)) in
+  (per_len = 0 -> ckv_offload k es ns charge len v0 v1 s = Some (0%Z, s)) /\
+  (per_len <> 0 -> ckv_offload k es ns charge len v0 v1 s = poisson true (per_len * len) s).
+Proof. exact ckv_offload_rule. Qed.
+Print Assumptions C20_ckv_offload_rule.
+
+Theorem C20_scint_offload_poisson : forall yield res edep s, 0 < yield * edep <= 10 ->
+  scint_offload (T:=R) yield res edep s = poisson true (yield * edep) s.
+Proof. exact scint_offload_poisson. Qed.
+Print Assumptions C20_scint_offload_poisson.
+
+(** the per-segment closed form above IS the Riemann integral (Coquelicot [is_RInt], wrapped in
+    [seg_integral_is]) of 1/n(E)^2 for the linear interpolant [nlin] between (e0, a) and (e1, b) *)
+Theorem C20_seg_integral_closed_form : forall e0 e1 a b : R, e0 < e1 -> 0 < a -> 0 < b ->
+  seg_integral_is e0 e1 a b ((e1 - e0) / (a * b)).
+Proof. exact seg_integral_closed_form. Qed.
+Print Assumptions C20_seg_integral_closed_form.
